@@ -5,6 +5,7 @@ class Finding:
         s.prop, s.rule, s.file, s.func, s.construct, s.msg, s.witness = prop, rule, file, func, " ".join(construct.split()), msg, witness
     def key(s): return (s.prop, s.rule, s.file, s.func, s.construct)
     def __repr__(s): return "%s %s %s::%s  [%s]  %s" % (s.prop, s.rule, s.file, s.func, s.construct[:90], s.msg)
+TIER = "quick"
 class AnalysisError(Exception): pass
 _cache = {}
 # ---- run statistics and obligation recorder (what was analysed; feeds the evidence files)
